@@ -57,6 +57,12 @@ def step (quirkV0 : Bool) (toks : List String) (impl : String) : Res :=
   | some "offer" => stepOffer quirkV0 toks impl
   | some "offer2" => stepOffer2 toks impl
   | some "offered" => stepOffered toks impl
+  | some "offerfollowup" =>
+    -- the transfer of an accepted offer completes; a further, empty stream on the same connection id is a stream with a
+    -- different item count and is discarded
+    let k := kvNat toks "keys"
+    { model := s!"first=items{k} second_enqueued=0",
+      monitor := if kv (words impl) "second_enqueued" == "1" then ["count_mismatch_dropped"] else [], tags := ["offerfollowup"] }
   | some "inflight" =>
     -- a history of version-1 offers over a pool of fresh in-range keys: `p:` the peer never connects (its accepted keys
     -- stay in flight), `c:` the transfer ends at once (its own accepted keys are cleared, nothing else)
